@@ -8,6 +8,7 @@ from .. import paths
 from ..core import FUNC, AnalysisError, inert, call_attr, calls_in, const, dotted, is_const, kwarg, norm, slice_parts, text, walk_local
 
 EXPLANATION = [
+    'C20.brsf-reply: AgProtocol._on_brsf formats its +BRSF reply from self.supported_ag_features itself.',
     "C20.empty-parameters: AtCommand.parse_from calls at.parse_parameters only under the truth of the parameter text: a SET command with nothing after '=' has an empty parameter list.",
     'C20.listener-cleanup: every `on/once(event, future.set_result|set_exception)` made by a coroutine of hfp / rfcomm is undone by a remove_listener in a finally of that coroutine, so an abandoned wait leaves no listener that would raise at the next emit (second final result code).',
     "C20.mux-teardown: every method of rfcomm.Multiplexer that takes it to DISCONNECTED completes a pending disconnect() on each path that performs the transition (the UA answering our DISC and the peer's crossing DISC alike).",
@@ -1321,7 +1322,24 @@ def empty_parameters(ctx):
         R.check(ok, rule, 'bumble.hfp.AtCommand.parse_from | only with parameter text', f'parse_parameters runs only when `{nm}` is non-empty', 'the parameter parser can run on an empty parameter text (it returns one empty parameter): AT+BAC= / AT+BIND= from a hands-free with an empty list are answered ERROR and the service-level connection is never completed', p.loc(c))
 
 
+def brsf_reply(ctx):
+    """What the gateway announces in +BRSF is what it holds: the reply is formatted from self.supported_ag_features itself,
+    not from an adjusted copy (the hands-free side stores the announced value, the gateway keeps its own)."""
+    R, p = ctx.r, ctx.p
+    rule = 'C20.brsf-reply'
+    fn = p.find(f'{AG}._on_brsf')
+    if fn is None:
+        R.bad(rule, f'{AG}._on_brsf', 'anchor missing')
+        return
+    sends = [c for c in calls_in(fn) if dotted(c.func) == 'self.send_response' and c.args and isinstance(c.args[0], ast.JoinedStr) and any(isinstance(v, ast.Constant) and '+BRSF' in str(v.value) for v in c.args[0].values)]
+    R.check(len(sends) == 1, rule, f'{AG}._on_brsf | +BRSF reply', 'one reply', f'{len(sends)} replies', p.loc(fn))
+    for c in sends:
+        vals = [norm(v.value) for v in c.args[0].values if isinstance(v, ast.FormattedValue)]
+        R.check(vals == ['self.supported_ag_features'], rule, f'{AG}._on_brsf | announced value', 'self.supported_ag_features', f'the reply announces `{vals}` while the gateway keeps self.supported_ag_features: after the service level connection the two sides hold different gateway feature sets', p.loc(c))
+
+
 RULES = [
+    ('C20.brsf-reply', brsf_reply),
     ('C20.empty-parameters', empty_parameters),
     ('C20.listener-cleanup', listener_cleanup),
     ('C20.mux-teardown', mux_teardown),
